@@ -277,9 +277,20 @@ Lemma wqz_set_from s t d g : wqz (set_from s t d) g = wqz s g. Proof. reflexivit
 Lemma wqz_set_to s t d g : wqz (set_to s t d) g = wqz s g. Proof. reflexivity. Qed.
 Lemma wqz_set_thr s t x g : wqz (set_thr s t x) g = wqz s g. Proof. reflexivity. Qed.
 
+Ltac clr :=
+  repeat match goal with
+  | H : Inv _ _ |- _ => clear H
+  | H : nthr _ = _ |- _ => clear H
+  | H : to_store _ = _ |- _ => clear H
+  | H : prog_ok _ _ |- _ => clear H
+  | H : sfrom _ _ = _ \/ _ |- _ => clear H
+  | H : _ -> sto _ _ = _ |- _ => clear H
+  | H : sto _ _ = _ |- _ => clear H
+  end.
 Ltac fibs Hfib g :=
   let H := fresh "Hg" in pose proof (Hfib g) as H; destruct H;
   unfold run, kok, hok in *;
+  clr;
   constructor; cbn [cnt fstt set_wq set_fs set_thr set_dq set_from set_to] in *;
   rewrite ?wqz_set_wq, ?wqz_set_fs, ?wqz_set_dq, ?wqz_set_from, ?wqz_set_to, ?wqz_set_thr in *;
   rewrite ?cnt_opt in *; unfold upd in *; neq; cbv iota in *; try lia.
@@ -296,6 +307,9 @@ Lemma Fq_swap s : sfrom s 0 = 1 \/ sfrom s 0 = 2 ->
   Fq (set_from s 0 (3 - sfrom s 0)) = Sq s /\ Sq (set_from s 0 (3 - sfrom s 0)) = Fq s.
 Proof. unfold Fq, Sq; cbn [dq sfrom set_from]. rewrite upd_same. intros [E|E]; rewrite E; cbn; auto. Qed.
 
+Ltac pz Hfib z :=
+  pose proof (f_once _ _ _ _ _ _ _ (Hfib z)); pose proof (f_wq _ _ _ _ _ _ _ (Hfib z));
+  pose proof (f_wb _ _ _ _ _ _ _ (Hfib z)).
 Ltac mk := apply inv_mk; [assumption|assumption|assumption| | | |].
 Ltac mkfin := rewrite fst_let_finish; apply inv_finish; [assumption|assumption|assumption| | | |].
 Ltac hsimp :=
@@ -334,7 +348,7 @@ Proof.
     destruct Hloc as (Hr & Hf & Hz). cbn [fst].
     mk.
     + intros _. exact Hto'.
-    + intros g. hsimp. pose proof (Hfib f) as []. fibs Hfib g.
+    + intros g. hsimp. pz Hfib f. fibs Hfib g.
     + exact Hprog.
     + unfold lok, run in *; cbn. rewrite upd_same. split; auto.
       destruct Hr as [Hr|Hr]; auto. right. rewrite upd_other; auto. congruence.
@@ -346,7 +360,7 @@ Proof.
       destruct Hloc as [Hf2 Hk]. mkfin.
       * exact Hto'.
       * intros g. rewrite EF, ES. change (dq s (3 - sfrom s 0)) with (Sq s).
-        pose proof (Hfib f) as []. fibs Hfib g.
+        pz Hfib f. fibs Hfib g.
       * exact Hprog.
       * exact Hk.
     + (* KRequeue *)
@@ -354,20 +368,20 @@ Proof.
       mkfin.
       * exact Hto'.
       * intros g. rewrite EF, ES. change (dq s (3 - sfrom s 0)) with (Sq s).
-        rewrite Hc in *. pose proof (Hfib f) as []. pose proof (Hfib nf) as []. fibs Hfib g.
+        rewrite Hc in *. pz Hfib f. pz Hfib nf. fibs Hfib g.
       * exact Hprog.
       * right. exact Hnf.
     + (* KWake *)
       destruct Hloc as [Hf2 Hk]. mkfin.
       * exact Hto'.
       * intros g. rewrite EF, ES. change (dq s (3 - sfrom s 0)) with (Sq s).
-        pose proof (Hfib f) as []. fibs Hfib g.
+        pz Hfib f. fibs Hfib g.
       * exact Hprog.
       * exact Hk.
   - (* PBlockW *)
     destruct Hloc as [Hc H1]. cbn [fst]. mk.
     + intros _. exact Hto'.
-    + intros g. hsimp. pose proof (Hfib (cur T)) as []. fibs Hfib g.
+    + intros g. hsimp. pz Hfib (cur T). fibs Hfib g.
     + exact Hprog.
     + unfold lok; cbn. rewrite upd_same. auto.
   - (* PYRead *)
@@ -400,7 +414,7 @@ Proof.
     + unfold next_ret. destruct k; try contradiction.
       * destruct Hloc as (Hc & Hst & H13).
         destruct (Z.eqb_spec st 3) as [E3|E3]; dfin; apply inv_finish; auto.
-        -- intros g. hsimp. pose proof (Hfib (cur T)) as []. fibs Hfib g.
+        -- intros g. hsimp. pz Hfib (cur T). fibs Hfib g.
         -- left; reflexivity.
         -- right; lia.
       * dfin. apply inv_finish; auto. left. exact Hloc.
@@ -427,7 +441,7 @@ Proof.
     mk.
     + intros _. exact Hto'.
     + intros g. rewrite EF, ES. change (dq s (3 - sfrom s 0)) with (Sq s). hsimp.
-      pose proof (Hfib x) as []. fibs Hfib g.
+      pz Hfib x. fibs Hfib g.
     + exact Hprog.
     + unfold lok; cbn. exact Hk.
   - (* PY2 *)
@@ -437,7 +451,7 @@ Proof.
     + unfold lok; cbn. split; auto. split; auto. left. split; auto. lia.
   - (* PY3 *)
     destruct Hloc as (Hc & H1 & Hnf). cbn [fst]. mk; try (intros _; exact Hto'); try exact Hprog.
-    + intros g. hsimp. pose proof (Hfib (cur T)) as []. pose proof (Hfib nf) as []. fibs Hfib g.
+    + intros g. hsimp. pz Hfib (cur T). pz Hfib nf. fibs Hfib g.
     + unfold lok, hok in *; cbn. rewrite upd_same. split; auto. split; [|right; auto].
       unfold upd. destruct (Nat.eqb nf (cur T)); auto.
   - (* PY4 *)
@@ -449,12 +463,12 @@ Proof.
     + destruct Hts0 as [[_ H3]|[Habs _]]; [|congruence].
       mkfin.
       * exact Hto'.
-      * intros g. hsimp. pose proof (Hfib (cur T)) as []. pose proof (Hfib nf) as []. fibs Hfib g.
+      * intros g. hsimp. pz Hfib (cur T). pz Hfib nf. fibs Hfib g.
       * exact Hprog.
       * right. cbn. apply upd_same.
     + destruct Hts0 as [[Habs _]|[Hts1 H2]]; [discriminate|].
       cbn [fst]. mk; try (intros _; exact Hto'); try exact Hprog.
-      * intros g. hsimp. pose proof (Hfib (cur T)) as []. pose proof (Hfib nf) as []. fibs Hfib g.
+      * intros g. hsimp. pz Hfib (cur T). pz Hfib nf. fibs Hfib g.
       * unfold lok; cbn. rewrite upd_same, Hts1. rewrite upd_other by auto. auto.
   - (* PL1 *)
     unfold lb_continue. rewrite Hn. rewrite lb_scan_1thread.
@@ -467,7 +481,7 @@ Proof.
   - (* PI1 *)
     destruct Hloc as [Hc Hnf]. dfin.
     apply inv_finish; auto.
-    + intros g. hsimp. rewrite Hc in *. pose proof (Hfib nf) as []. fibs Hfib g.
+    + intros g. hsimp. rewrite Hc in *. pz Hfib nf. fibs Hfib g.
     + right. cbn. apply upd_same.
   - (* PW1 *)
     destruct (Z.eqb_spec (fstt s f) 3) as [E3|E3]; destruct (inwq s f) eqn:Ew; cbn [andb];
@@ -475,12 +489,12 @@ Proof.
     assert (Hw : wqz s f = 1%Z) by (unfold wqz; rewrite Ew; reflexivity).
     cbn [fst]. mk.
     + intros _. exact Hto'.
-    + intros g. hsimp. pose proof (Hfib f) as []. pose proof (Hfib (cur T)) as []. fibs Hfib g.
+    + intros g. hsimp. pz Hfib f. pz Hfib (cur T). fibs Hfib g.
     + exact Hprog.
     + unfold lok; cbn. auto.
   - (* PW2 *)
     destruct Hloc as [Hr H3]. cbn [fst]. mk; try (intros _; exact Hto'); try exact Hprog.
-    + intros g. hsimp. pose proof (Hfib f) as []. pose proof (Hfib (cur T)) as []. fibs Hfib g.
+    + intros g. hsimp. pz Hfib f. pz Hfib (cur T). fibs Hfib g.
     + unfold lok, run in *; cbn. rewrite upd_same. split; auto.
       destruct Hr as [Hr|Hr]; auto. right. rewrite upd_other; auto. congruence.
   - (* PP1 *)
@@ -489,12 +503,12 @@ Proof.
     assert (Hw : wqz s f = 1%Z) by (unfold wqz; rewrite Ew; reflexivity).
     cbn [fst]. mk.
     + intros _. exact Hto'.
-    + intros g. hsimp. pose proof (Hfib f) as []. pose proof (Hfib (cur T)) as []. fibs Hfib g.
+    + intros g. hsimp. pz Hfib f. pz Hfib (cur T). fibs Hfib g.
     + exact Hprog.
     + unfold lok; cbn. auto.
   - (* PP2 *)
     destruct Hloc as [Hr H3]. cbn [fst]. mk; try (intros _; exact Hto'); try exact Hprog.
-    + intros g. hsimp. pose proof (Hfib f) as []. pose proof (Hfib (cur T)) as []. fibs Hfib g.
+    + intros g. hsimp. pz Hfib f. pz Hfib (cur T). fibs Hfib g.
     + unfold lok, run in *; cbn. rewrite upd_same. split; auto.
       destruct Hr as [Hr|Hr]; auto. right. rewrite upd_other; auto. congruence.
   - (* PF1 *)
@@ -503,7 +517,7 @@ Proof.
     + mkfin; auto.
   - (* PF2 *)
     destruct Hloc as [Hr H5]. dfin. apply inv_finish; auto.
-    + intros g. hsimp. pose proof (Hfib f) as []. pose proof (Hfib (cur T)) as []. fibs Hfib g.
+    + intros g. hsimp. pz Hfib f. pz Hfib (cur T). fibs Hfib g.
     + unfold run in *. destruct Hr as [Hr|Hr]; auto. right. cbn. rewrite upd_other; auto. congruence.
   - (* Fin *)
     exact I0.
@@ -535,7 +549,7 @@ Qed.
 (* every held fiber exists (state <> 0) *)
 Lemma held_exists N s f : Inv N s -> In f (held (T0 s)) -> fstt s f <> 0%Z.
 Proof.
-  intros I Hin. pose proof (i_loc N s I) as L. unfold lok, held, run, kok in *.
+  intros I Hin. pose proof (i_loc N s I) as L. unfold lok, held, run, kok, hok in *.
   destruct (pc (T0 s)); try contradiction;
     try (destruct k; try contradiction; try (exfalso; tauto));
     destruct (cur (T0 s)) eqn:Ec; cbn [opt In] in Hin;
